@@ -58,9 +58,22 @@ TABLE = {
     "C17": ("TLA+ relation MomentumRel with the momentum signal recomputed exactly by TLC (dyadic integers) from the observed mid-prices; harness-imposed price paths at saturated demand; mirrored run pairs validated by TLC",
             "At saturated demand the documented rule is deterministic: TLC recomputes M from the logged mid-price sequence (decay 1 and 1/2 exactly) and requires buys for M > 0, sells for M < 0, nothing for M = 0, one market order (and one limit order when the ratio is >= 1) per trader; each run is repeated on the reflected price path with the same seed and TLC requires the reflected order flow (sides swapped, same sizes, prices reflected about the level).",
             "6 C17"),
+    "C09": ("TLC (SimEq.tla) compares complete simulation outputs of repeated runs in separate OS processes (same seed twice, progress bar on, shifted seeds) line by line; runs go through the public runners with derive-macro agent sets",
+            "For a seeded matrix of configurations (seeds x step counts x step sizes x tick sizes x six agent compositions incl. nested derived sets, single- and multi-asset) the simulation binary is run as four separate OS processes; TLC requires outputs A = B = C (orders, trades, recorded level-2 history, per-step volume) and D (shifted seeds) different for every substantial run. The behaviours themselves are bound to the specification by C08 and C16. A nondeterminism source stable across these repetitions is not seen.",
+            "6 C09"),
+    "C15": ("TLC (Shuffle.tla): Fisher-Yates bijection by enumeration for n <= 6; exact Bernstein + union-bound predicate evaluated by TLC on histograms recorded from >= 2.16*10^5 seeded real steps per batch size; generator-state-only determinism clauses",
+            "Statistical: see level text in the evidence. TLC proves the model's uniformity by bijection and evaluates the stated concentration bound on recorded histograms (all n! permutations for n = 2..6, position-by-item and pairwise tables up to n = 64, Env and MarketEnv, mixed instruction kinds) and the determinism clauses.",
+            "6 C15"),
+    "C20": ("TLC (AgentSet.tla) enumerates struct shapes; generated #[derive(AgentSet)] / #[derive(MarketAgentSet)] structs compiled against the working tree's macro crate; probe traces validated by TLC against Update(shape) and the hand-written sequence",
+            "95 shapes (1..8 leaves, two leaf types, repeated types, sets nested up to depth 4) x both macros; probe agents reveal call order (order ids), generator sharing (draw indices) and environment sharing; three update calls per shape; TLC requires every leaf exactly once per call, in declaration order, draw k to call k.",
+            "6 C20"),
 }
 
+LEVEL = {"C15": "other"}
+
 PENDING = {
+    "C18": "check not built yet (Python binding layer in progress)",
+    "C19": "check not built yet (Python binding layer in progress)",
 }
 
 ALL = ["C%02d" % i for i in range(1, 21)]
@@ -78,7 +91,7 @@ def main():
                 "evidence_file": "evidence/%s.json" % pid,
                 "replay_cmd_template": "./check %s --replay {path}" % pid,
                 "engine": "tlc-bound",
-                "level_claimed": {"category": "model_checking", "text": text, "design_ref": "DESIGN.md section " + ref},
+                "level_claimed": {"category": LEVEL.get(pid, "model_checking"), "text": text, "design_ref": "DESIGN.md section " + ref},
                 "level_note": MC_NOTE,
                 "technique": tech,
             })
